@@ -105,10 +105,76 @@ Definition obs_eqb (a b : obs) : bool :=
   && Bool.eqb (o_rev_called a) (o_rev_called b) && list_eqb String.eqb (o_pm_get a) (o_pm_get b)
   && opt_exec_eqb (o_exec a) (o_exec b).
 
-(* strings.TrimSpace(s) == "" for ASCII strings *)
+(* strings.TrimSpace(s) == "": Unicode white space (U+0085, U+00A0, U+2028, U+3000 ... as well as the
+   ASCII one). [trim_space] is a copy of GoLib.str_trim_space (validated against the Go function by
+   bin/goliteselftest; C02_GenProofs.trim_space_is_golib proves the two equal), kept here so that
+   the C02 development does not depend on GoLib.v. Until the GoLite equivalence of
+   getVerificationPlugin (props/C02_Generated.v) [blank] was ASCII-only: a plugin name made of U+00A0
+   was "not blank" for the model, "empty" for the code. *)
 Definition is_space (c : N) : bool :=
   ((c =? 32) || (c =? 9) || (c =? 10) || (c =? 11) || (c =? 12) || (c =? 13))%N.
-Definition blank (s : string) : bool := forallb is_space (bytes s).
+Definition blank_ascii (s : string) : bool := forallb is_space (bytes s).
+
+Definition space_prefix_len (l : list N) : nat :=
+  match l with
+  | c :: r =>
+      if ((9 <=? c) && (c <=? 13) || (c =? 32))%N then 1
+      else match r with
+           | d :: r' =>
+               if ((c =? 194) && ((d =? 133) || (d =? 160)))%N then 2
+               else match r' with
+                    | e :: _ =>
+                        if ((c =? 225) && (d =? 154) && (e =? 128))%N then 3
+                        else if ((c =? 226) && (d =? 128) && ((128 <=? e) && (e <=? 138) || (e =? 168) || (e =? 169) || (e =? 175)))%N then 3
+                        else if ((c =? 226) && (d =? 129) && (e =? 159))%N then 3
+                        else if ((c =? 227) && (d =? 128) && (e =? 128))%N then 3
+                        else 0
+                    | [] => 0
+                    end
+           | [] => 0
+           end
+  | [] => 0
+  end.
+
+(* the same, read from the end: the argument is the REVERSED byte list *)
+Definition space_suffix_len (l : list N) : nat :=
+  match l with
+  | c :: r =>
+      if ((9 <=? c) && (c <=? 13) || (c =? 32))%N then 1
+      else match r with
+           | d :: r' =>
+               if ((d =? 194) && ((c =? 133) || (c =? 160)))%N then 2
+               else match r' with
+                    | e :: _ =>
+                        if ((e =? 225) && (d =? 154) && (c =? 128))%N then 3
+                        else if ((e =? 226) && (d =? 128) && ((128 <=? c) && (c <=? 138) || (c =? 168) || (c =? 169) || (c =? 175)))%N then 3
+                        else if ((e =? 226) && (d =? 129) && (c =? 159))%N then 3
+                        else if ((e =? 227) && (d =? 128) && (c =? 128))%N then 3
+                        else 0
+                    | [] => 0
+                    end
+           | [] => 0
+           end
+  | [] => 0
+  end.
+
+Fixpoint trim_with (f : list N -> nat) (fuel : nat) (l : list N) : list N :=
+  match fuel with
+  | O => l
+  | S fuel' =>
+      match f l with
+      | O => l
+      | n => trim_with f fuel' (skipn n l)
+      end
+  end.
+
+Definition trim_space (s : string) : string :=
+  let l := bytes s in
+  let l1 := trim_with space_prefix_len (List.length l) l in
+  let l2 := rev (trim_with space_suffix_len (List.length l1) (rev l1)) in
+  B l2.
+
+Definition blank (s : string) : bool := String.eqb (trim_space s) "".
 
 (* isCriticalFailure: result.Action == enforce && result.Error != nil *)
 Definition is_critical_failure (a : action) (failed : bool) : bool :=
